@@ -3,35 +3,35 @@ import MgpuProofs.C08WrapLemmas
 import MgpuProofs.Props.C08
 /-! # C08 — fixed-width integers of the launch path
 
-The theorems of `Props/C08.lean` are about a `Nat` model. The real code computes the work-group
-counts in `uint32` (driver, filter closure) or converts a `uint32` difference to a 64-bit `int`
-(`countWG`). `nwg32`, `nwg64`, `Geo.total32`, `wgPerCU64`, `gpuFilter32`, `dist32` in the model follow
-those widths (and are tied to the real code by the `c08 dist32` / `c08 cnt32` case lines).
-`Geo.NoWrap` is the decidable bound under which both models agree: typed ranges, no empty axis,
-fewer than 2^32 work-groups. NOTHING in the launch path checks it (`LaunchKernel` /
-`createAQLPacket` copy the sizes into the packet unchecked), so the full statements are refuted by
-kernel-checked witnesses, which the harness replays on the real driver / grid builder. -/
+The theorems of `Props/C08.lean` are about a `Nat` model. The real code holds grid sizes in `uint32`
+and work-group sizes in `uint16`. As REPAIRED (`numWGInDim`), `countWG`, `distributeWGToGPUs` and the
+filter closure compute `ceil(grid/wg)` per axis and the product of the counts in `int` (64 bit):
+`nwgI`, `Geo.totalI`, `wgPerCUI`, `gpuFilterI`, `distI` follow that code and are tied to it by the
+`c08 dist32` / `c08 cnt32` case lines. The code as pinned before the repair (counts and their
+product in `uint32`, `GridSize-1` underflowing for an empty axis) is kept as `…Old` with the
+witnesses that refuted the full statements then. -/
 namespace C08
 
-/-- **fixed_width_agrees.** For every geometry inside `NoWrap` and every CU vector with positive
-    sum the fixed-width computations equal the `Nat` model: per-axis counts, the `uint32` product,
-    `countWG`'s 64-bit product, the driver's ranges (no fault), and every GPU's filter closure.
-    Hence `wgdist_partitions`, `filters_partition`, `numWG_split`, `wgs_enumerate` transfer to the
-    code's integer widths. -/
+/-- **fixed_width_agrees.** For every geometry inside `NoWrap` — typed ranges, no empty axis and
+    fewer than 2^63 work-groups (the only arithmetic bound left: the `int` product must not
+    overflow; before the repair the bound was 2^32) — and every CU vector with positive sum the
+    code's computations equal the `Nat` model: per-axis counts and their product, `countWG`, the
+    driver's ranges (no fault), and every GPU's filter closure. Hence `wgdist_partitions`,
+    `filters_partition`, `numWG_split`, `wgs_enumerate` transfer to the code's integer widths. -/
 theorem fixed_width_agrees (g : Geo) (h : g.NoWrap) (cus : List Nat) (hs : 0 < cus.sum) :
-    g.total32 = g.total ∧
-    nwg64 g.gx g.wx * nwg64 g.gy g.wy * nwg64 g.gz g.wz = countWG g none ∧
-    dist32 g cus = .ok (wgDist (wgPerCU g.total cus.sum) cus 0) ∧
-    ∀ d i c, gpuFilter32 g d i c = gpuFilter g d i c := by
-  have ht := total32_eq g h
+    g.totalI = g.total ∧
+    nwgI g.gx g.wx * nwgI g.gy g.wy * nwgI g.gz g.wz = countWG g none ∧
+    distI g cus = .ok (wgDist (wgPerCU g.total cus.sum) cus 0) ∧
+    ∀ d i c, gpuFilterI g d i c = gpuFilter g d i c := by
+  have ht := totalI_eq g h
   have hn := h
   obtain ⟨⟨a1, _⟩, ⟨b1, _⟩, ⟨c1, _⟩, ⟨d1, _⟩, ⟨e1, _⟩, ⟨f1, _⟩, _⟩ := hn
-  refine ⟨ht, ?_, ?_, fun d i c => gpuFilter32_eq g h d i c⟩
-  · rw [nwg64_eq _ _ a1, nwg64_eq _ _ b1, nwg64_eq _ _ c1]
+  refine ⟨ht, ?_, ?_, fun d i c => gpuFilterI_eq g h d i c⟩
+  · rw [nwgI_eq _ _ a1 d1, nwgI_eq _ _ b1 e1, nwgI_eq _ _ c1 f1]
     rfl
-  · unfold dist32
+  · unfold distI
     rw [if_neg (by omega)]
-    simp only [ht, wgPerCU64_eq _ _ (total_pos g)]
+    simp only [ht, wgPerCUI_eq _ _ (total_pos g) hs]
     rw [if_neg (wgDist_reaches g.total cus hs (total_pos g))]
 
 /-- **split_never_faults.** In the `Nat` model the driver's split (`split`, the function the
@@ -47,28 +47,100 @@ theorem split_never_faults (g : Geo) (cus : List Nat) (hs : 0 < cus.sum) (gpu : 
   · exact ⟨_, rfl⟩
   · exact ⟨_, rfl⟩
 
-/-- the typed ranges of a dispatch packet with no empty axis (what a well-formed launch passes) -/
+/-- what the packet's types guarantee (an axis of the grid may be EMPTY) plus non-zero work-group
+    sizes (a zero size is a division fault in the code) -/
+def Geo.Packet (g : Geo) : Prop :=
+  g.gx < 4294967296 ∧ g.gy < 4294967296 ∧ g.gz < 4294967296 ∧
+  (1 ≤ g.wx ∧ g.wx < 65536) ∧ (1 ≤ g.wy ∧ g.wy < 65536) ∧ (1 ≤ g.wz ∧ g.wz < 65536)
+
+/-- the work-groups `NextWG` produces without a filter -/
+def produced (g : Geo) : List WG := (enumFrom g (fun _ => true) (g.total + 1) ⟨0, 0, 0⟩).1
+
+/-- **numWG_typed (full statement, repaired code).** For every packet — empty axes included — the
+    count `countWG` announces (`ceil` per axis, `int` product) is the number of work-groups `NextWG`
+    produces; for an empty axis both are 0. -/
+theorem numWG_typed (g : Geo) (hw : 1 ≤ g.wx ∧ 1 ≤ g.wy ∧ 1 ≤ g.wz) :
+    nwgI g.gx g.wx * nwgI g.gy g.wy * nwgI g.gz g.wz = (produced g).length := by
+  by_cases h0 : g.gx = 0 ∨ g.gy = 0 ∨ g.gz = 0
+  · unfold produced
+    rw [(totalI_empty g hw h0).2, enum_empty g h0]
+    rfl
+  · have hv : g.Valid := ⟨by omega, by omega, by omega, hw.1, hw.2.1, hw.2.2⟩
+    rw [nwgI_eq _ _ hv.gx hv.wx, nwgI_eq _ _ hv.gy hv.wy, nwgI_eq _ _ hv.gz hv.wz]
+    exact numWG_eq_produced g hv none
+
+/-- **fixed_width_split (full statement, repaired code).** For every packet (empty axes included)
+    with fewer than 2^63 work-groups and every CU vector with positive sum: the driver returns
+    ranges without a fault, and every work-group `NextWG` produces is accepted by the filter closure
+    of exactly one GPU, which receives a launch request. With an empty axis nothing is produced and
+    no GPU is launched (the command completes at once). -/
+theorem fixed_width_split (g : Geo) (cus : List Nat) (hp : g.Packet)
+    (hb : nwgI g.gx g.wx * nwgI g.gy g.wy * nwgI g.gz g.wz < 9223372036854775808) (hs : 0 < cus.sum) :
+    ∃ d, distI g cus = .ok d ∧
+      (∀ w ∈ produced g, ∃ i, i ∈ launched d cus.length ∧ gpuFilterI g d i w.id = true ∧
+        ∀ j, j < cus.length → gpuFilterI g d j w.id = true → j = i) ∧
+      ((g.gx = 0 ∨ g.gy = 0 ∨ g.gz = 0) → produced g = [] ∧ launched d cus.length = []) := by
+  obtain ⟨hx, hy, hz, ⟨wx1, wx2⟩, ⟨wy1, wy2⟩, ⟨wz1, wz2⟩⟩ := hp
+  by_cases h0 : g.gx = 0 ∨ g.gy = 0 ∨ g.gz = 0
+  · have ht := (totalI_empty g ⟨wx1, wy1, wz1⟩ h0).1
+    have hpr : produced g = [] := enum_empty g h0 _ _
+    refine ⟨wgDist 0 cus 0, ?_, ?_, fun _ => ⟨hpr, launched_zero cus⟩⟩
+    · unfold distI
+      rw [if_neg (by omega)]
+      simp only [ht, wgPerCUI_zero _ hs]
+      rw [if_neg (by omega)]
+    · intro w hw
+      rw [hpr] at hw
+      cases hw
+  · have hv : g.Valid := ⟨by omega, by omega, by omega, wx1, wy1, wz1⟩
+    have hnw : g.NoWrap := by
+      refine ⟨⟨hv.gx, hx⟩, ⟨hv.gy, hy⟩, ⟨hv.gz, hz⟩, ⟨wx1, wx2⟩, ⟨wy1, wy2⟩, ⟨wz1, wz2⟩, ?_⟩
+      rw [nwgI_eq _ _ hv.gx wx1, nwgI_eq _ _ hv.gy wy1, nwgI_eq _ _ hv.gz wz1] at hb
+      exact hb
+    obtain ⟨_, _, hd, hf⟩ := fixed_width_agrees g hnw cus hs
+    refine ⟨_, hd, ?_, fun h => absurd h h0⟩
+    intro w hw
+    have hall : produced g = allWGs g := by
+      have he := wgs_enumerate g hv (fun _ => true) 0 (g.total + 1)
+      have hsk : skip g (fun _ => true) 0 ⟨0, 0, 0⟩ = ⟨0, 0, 0⟩ := rfl
+      rw [hsk] at he
+      unfold produced
+      rw [he, List.drop_zero, List.filter_eq_self.mpr (fun _ _ => rfl)]
+      exact List.take_of_length_le (by simp [allWGs])
+    rw [hall] at hw
+    obtain ⟨i, hi, a, b⟩ := filters_partition g cus hs w hw
+    refine ⟨i, ?_, by rw [hf]; exact a, fun j hj hj' => b j hj (by rw [hf] at hj'; exact hj')⟩
+    unfold launched
+    rw [List.mem_filter, List.mem_range]
+    refine ⟨hi, ?_⟩
+    unfold gpuFilter at a
+    simp only [Bool.and_eq_true, decide_eq_true_eq] at a
+    simp only [decide_eq_true_eq]
+    omega
+
+/-! ## the code as pinned before the repair -/
+
+/-- typed ranges with no empty axis (what a well-formed launch passes) -/
 def Geo.Typed (g : Geo) : Prop :=
   (1 ≤ g.gx ∧ g.gx < 4294967296) ∧ (1 ≤ g.gy ∧ g.gy < 4294967296) ∧ (1 ≤ g.gz ∧ g.gz < 4294967296) ∧
   (1 ≤ g.wx ∧ g.wx < 65536) ∧ (1 ≤ g.wy ∧ g.wy < 65536) ∧ (1 ≤ g.wz ∧ g.wz < 65536)
 
-/-- full statement with the code's widths: for every typed geometry every work-group of the grid is
-    accepted by the filter closure of some GPU that receives a launch request -/
-def fixed_width_split_full : Prop :=
+/-- the full statement over the OLD arithmetic: every work-group is accepted by some GPU -/
+def fixed_width_split_before_fix_full : Prop :=
   ∀ (g : Geo) (cus : List Nat), g.Typed → 0 < cus.sum → ∀ w ∈ allWGs g,
-    ∃ d, dist32 g cus = .ok d ∧ ∃ i, i < cus.length ∧ gpuFilter32 g d i w.id = true
+    ∃ d, dist32Old g cus = .ok d ∧ ∃ i, i < cus.length ∧ gpuFilter32Old g d i w.id = true
 
-/-- **fixed_width_split_refuted.** Grid 65536×65536×1 with work-group 1×1×1 has 2^32 work-groups:
-    the driver's `uint32` product is 0, `wgPerCU = (0-1)/8+1 = 1`, two GPUs with 4 CUs each get the
-    ranges `[0,4)` and `[4,8)`, the panic guard compares against the wrapped total and stays
-    silent, and work-group (8,0,0) — like every group with flat id ≥ 8 — is accepted by no GPU. -/
-theorem fixed_width_split_refuted : ¬ fixed_width_split_full := by
+/-- **fixed_width_split_before_fix_refuted.** Grid 65536×65536×1 with work-group 1×1×1 has 2^32
+    work-groups: the old `uint32` product was 0, `wgPerCU = (0-1)/8+1 = 1`, two GPUs with 4 CUs each
+    got the ranges `[0,4)` and `[4,8)`, the panic guard compared against the wrapped total and stayed
+    silent, and work-group (8,0,0) — like every group with flat id ≥ 8 — was accepted by no GPU. -/
+theorem fixed_width_split_before_fix_refuted : ¬ fixed_width_split_before_fix_full := by
   intro h
   have hw : wgAt ⟨65536, 65536, 1, 1, 1, 1⟩ 8 ∈ allWGs ⟨65536, 65536, 1, 1, 1, 1⟩ :=
     List.mem_map.mpr ⟨8, List.mem_range.mpr (by decide), rfl⟩
   obtain ⟨d, hd, i, hi, hf⟩ := h ⟨65536, 65536, 1, 1, 1, 1⟩ [4, 4]
     ⟨by decide, by decide, by decide, by decide, by decide, by decide⟩ (by decide) _ hw
-  have hd' : dist32 ⟨65536, 65536, 1, 1, 1, 1⟩ [4, 4] = .ok [0, 4, 8] := by rfl
+  have hd' : dist32Old ⟨65536, 65536, 1, 1, 1, 1⟩ [4, 4] = .ok [0, 4, 8] := by rfl
   rw [hd'] at hd
   cases hd
   have hi' : i = 0 ∨ i = 1 := by simp at hi; omega
@@ -76,61 +148,40 @@ theorem fixed_width_split_refuted : ¬ fixed_width_split_full := by
   · exact absurd hf (by decide +kernel)
   · exact absurd hf (by decide +kernel)
 
-/-- **fixed_width_split_partial.** Inside `NoWrap` the statement holds at the code's widths, with
-    uniqueness: every work-group is accepted by exactly one GPU's closure. -/
-theorem fixed_width_split_partial (g : Geo) (cus : List Nat) (h : g.NoWrap) (hs : 0 < cus.sum) (w : WG)
-    (hw : w ∈ allWGs g) :
-    ∃ d, dist32 g cus = .ok d ∧ ∃ i, i < cus.length ∧ gpuFilter32 g d i w.id = true ∧
-      ∀ j, j < cus.length → gpuFilter32 g d j w.id = true → j = i := by
-  obtain ⟨_, _, hd, hf⟩ := fixed_width_agrees g h cus hs
-  obtain ⟨i, hi, a, b⟩ := filters_partition g cus hs w hw
-  refine ⟨_, hd, i, hi, ?_, ?_⟩
-  · rw [hf]; exact a
-  · intro j hj hj'
-    rw [hf] at hj'
-    exact b j hj hj'
-
-/-- full statement for the announced count with the code's widths, empty axes allowed (the packet
-    type allows `GridSize = 0`): `NumWG` = 0 when `NextWG` yields nothing -/
-def numWG_typed_full : Prop :=
+/-- the full statement over the OLD `countWG`: nothing produced ⇒ nothing announced -/
+def numWG_typed_before_fix_full : Prop :=
   ∀ g : Geo, g.gx < 4294967296 → 1 ≤ g.wx → nextWG g ⟨0, 0, 0⟩ = none →
-    nwg64 g.gx g.wx * nwg64 g.gy g.wy * nwg64 g.gz g.wz = 0
+    nwg64Old g.gx g.wx * nwg64Old g.gy g.wy * nwg64Old g.gz g.wz = 0
 
-/-- **numWG_typed_refuted.** Grid 0×1×1 with work-group 64×1×1: `GridSizeX-1` wraps to 2^32-1, so
-    `NumWG` announces 67108864 work-groups while `NextWG` returns nil at once (a dispatcher waiting
-    for `numDispatchedWG ≥ numWG` never finishes such a kernel). -/
-theorem numWG_typed_refuted : ¬ numWG_typed_full := by
+/-- **numWG_typed_before_fix_refuted.** Grid 0×1×1 with work-group 64×1×1: `GridSizeX-1` wrapped to
+    2^32-1, so `NumWG` announced 67108864 work-groups while `NextWG` returned nil at once. -/
+theorem numWG_typed_before_fix_refuted : ¬ numWG_typed_before_fix_full := by
   intro h
   have := h ⟨0, 1, 1, 64, 1, 1⟩ (by decide) (by decide) (by decide)
   exact absurd this (by decide)
 
-/-- **numWG_typed_partial.** With no empty axis the 64-bit count of `countWG` is the number of
-    work-groups `NextWG` produces (any size below 2^32 per axis, no bound on the product). -/
-theorem numWG_typed_partial (g : Geo) (hv : g.Valid) :
-    nwg64 g.gx g.wx * nwg64 g.gy g.wy * nwg64 g.gz g.wz =
-      (enumFrom g (fun _ => true) (g.total + 1) ⟨0, 0, 0⟩).1.length := by
-  rw [nwg64_eq _ _ hv.gx, nwg64_eq _ _ hv.gy, nwg64_eq _ _ hv.gz]
-  exact numWG_eq_produced g hv none
-
 /-- **wgs_enumerate_needs_valid.** The hypothesis `g.Valid` of `wgs_enumerate` / `numWG_eq_produced`
-    cannot be dropped: for the empty-axis grid 0×1×1 the closed-form count says one work-group
-    (`(0-1)/1+1` in `Nat`; 2^32 in the code's `uint32`), the cursor produces none. -/
+    (statements about the `Nat` specification `(g-1)/w+1`) cannot be dropped: for the empty-axis grid
+    0×1×1 that closed form says one work-group, the cursor produces none — the repaired code's
+    `ceil` count says 0 (`numWG_typed`). -/
 theorem wgs_enumerate_needs_valid :
     (enumFrom ⟨0, 1, 1, 1, 1, 1⟩ (fun _ => true) 2 ⟨0, 0, 0⟩).1 = [] ∧
-    allWGs ⟨0, 1, 1, 1, 1, 1⟩ = [⟨(0, 0, 0), (0, 1, 1)⟩] ∧ nwg64 0 1 = 4294967296 := by
+    allWGs ⟨0, 1, 1, 1, 1, 1⟩ = [⟨(0, 0, 0), (0, 1, 1)⟩] ∧ nwgI 0 1 = 0 ∧ nwg64Old 0 1 = 4294967296 := by
   decide +kernel
 
 /-! ## non-vacuity -/
 
-/-- a large but legal launch (2^31-ish work-items, 8·2^20 work-groups) is inside the bound -/
-example : Geo.NoWrap ⟨2097152, 1024, 1, 256, 1, 1⟩ := by decide
-example : Geo.total32 ⟨2097152, 1024, 1, 256, 1, 1⟩ = 8388608 := by decide +kernel
-/-- the witness is a typed geometry outside the bound, and the two models differ there -/
-example : ¬ Geo.NoWrap ⟨65536, 65536, 1, 1, 1, 1⟩ := by decide
-example : Geo.total32 ⟨65536, 65536, 1, 1, 1, 1⟩ = 0 ∧ Geo.total ⟨65536, 65536, 1, 1, 1, 1⟩ = 4294967296 := by
-  decide +kernel
-example : wgDist (wgPerCU (Geo.total ⟨65536, 65536, 1, 1, 1, 1⟩) 8) [4, 4] 0 = [0, 2147483648, 4294967296] := by
-  decide +kernel
+/-- the former witness is now inside the bound: 2^32 work-groups, ranges reach the total, and
+    work-group (8,0,0) belongs to GPU 0 -/
+example : Geo.NoWrap ⟨65536, 65536, 1, 1, 1, 1⟩ := by decide
+example : distI ⟨65536, 65536, 1, 1, 1, 1⟩ [4, 4] = .ok [0, 2147483648, 4294967296] := by rfl
+example : gpuFilterI ⟨65536, 65536, 1, 1, 1, 1⟩ [0, 2147483648, 4294967296] 0 (8, 0, 0) = true := by decide +kernel
+/-- an empty axis: a packet, total 0, all ranges empty, nothing launched -/
+example : Geo.Packet ⟨0, 4, 1, 64, 1, 1⟩ := by unfold Geo.Packet; decide
+example : distI ⟨0, 4, 1, 64, 1, 1⟩ [4, 4] = .ok [0, 0, 0] := by rfl
+example : launched [0, 0, 0] 2 = [] := by decide
+/-- a geometry outside the bound: 2^32-1 groups per axis in x and y and 2 in z ≥ 2^63 -/
+example : ¬ Geo.NoWrap ⟨4294967295, 4294967295, 2, 1, 1, 1⟩ := by decide
 example : ([4, 4] : List Nat).sum > 0 := by decide
 
 end C08
